@@ -222,6 +222,24 @@ def gen_instance(rnd, family):
             if rnd.random() < 0.6:
                 init[f"t-{k}"] = {"location": rnd.choice([f"m-{rnd.randrange(nm)}"])}
         feats.add("agv_start")
+    if "custom_buffers" in feats and "alpha_buffer_names" not in feats and rnd.random() < 0.5:
+        # initial placement written out: some jobs with an explicit location (input or third buffer),
+        # buffer contents listed in an order of their own; a job located in a buffer need not be listed
+        feats.add("init_placement")
+        names = [e["name"] for e in ic["buffer"]]
+        targets = [names[0]] + (names[2:3] if len(names) > 2 else [])
+        placed = {}
+        for j in range(nj):
+            if rnd.random() < 0.5:
+                placed[j] = rnd.choice(targets)
+                init[f"j-{j}"] = {"location": placed[j]}
+        for b in targets:
+            here = [f"j-{j}" for j, loc in placed.items() if loc == b]
+            if here and rnd.random() < 0.7:
+                listed = [x for x in here if rnd.random() < 0.8]
+                rnd.shuffle(listed)
+                if listed:
+                    init[b] = {"store": listed}
     if init:
         doc["init_state"] = init
     meta["features"] = sorted(feats)
